@@ -220,7 +220,7 @@ Proof.
   { destruct il; [destruct load_accepts_empty; [injection H as _ <-; reflexivity|discriminate]|].
     destruct (forallb _ _); [|discriminate].
     destruct (of_opt (to_instrs _)); cbn [rbind] in H; [|discriminate].
-    destruct (of_opt (compile _ _ _)); cbn [rbind] in H; [|discriminate]. injection H as _ <-. reflexivity. }
+    destruct (of_opt (compile _ _ _ _)); cbn [rbind] in H; [|discriminate]. injection H as _ <-. reflexivity. }
   subst ph. split; [|repeat split]. rewrite (compile_gates_phase _ _ _ _ _ E). ring.
 Qed.
 
